@@ -3,7 +3,11 @@ import ShellOp.Model.Discovery
 /-! Line-protocol suite for C20 (hook discovery). Core-only.
 
 ```
-tree <rootName> <preorder tokens: d <name> … u | f <name> <octal mode> <ok|fail|invalid>[:<class>]>
+env hooksdir=<name> tmpdir=<path>   the other settings of the start (the hook set does not depend on them) -> ok
+tree <rootName> <preorder tokens: d <name> … u | f <name> <octal mode> <outcome> | l <name> <outcome>>
+                      outcome = ok[:<class>] | invalid[:<class>] | fail:<exitN|sigN|nostart>:<none|valid>
+                      (`l`: a symbolic link to an executable file; `fail`: how the --config run ended and
+                       whether it had printed a valid configuration — the outcome comes from `loadOutcome`)
                       (a case may contain several `tree` lines: the hooks directory as it is at each
                        start of a hook manager in the same process; each replaces the model's tree)
                       -> walk=<relative paths in the order RecursiveGetExecutablePaths returned them>
@@ -21,9 +25,22 @@ structure St where
 
 /-- `ok | fail | invalid`, optionally followed by `:<what the hook prints / does>` (the catalogue class
 of the configuration: the concrete input of the replay; the model only needs the outcome) -/
+def runEnd? (s : String) : Option RunEnd :=
+  if s == "nostart" then some .notStarted
+  else if s.startsWith "exit" then (s.drop 4).toString.toNat?.map .exited
+  else if s.startsWith "sig" then (s.drop 3).toString.toNat?.map .signaled
+  else none
+
 def outcome? (s : String) : Option Outcome :=
   match s.splitOn ":" with
-  | "ok" :: _ => some .ok | "fail" :: _ => some .fail | "invalid" :: _ => some .invalid | _ => none
+  | "ok" :: _ => some .ok
+  | "invalid" :: _ => some .invalid
+  | ["fail", e, o] => do
+    let e ← runEnd? e
+    if o == "valid" then some (loadOutcome e true)
+    else if o == "none" then some (loadOutcome e false)
+    else none
+  | _ => none
 
 def octal? (s : String) : Option Nat :=
   if s.isEmpty then none else
@@ -37,6 +54,9 @@ def parseTree : List String → List (Name × List Tree) → Option Tree
     let m ← octal? m
     let o ← outcome? o
     parseTree rest ((dn, Tree.file (bytesOf n) m o :: cs) :: st)
+  | "l" :: n :: o :: rest, (dn, cs) :: st => do
+    let o ← outcome? o
+    parseTree rest ((dn, Tree.link (bytesOf n) o :: cs) :: st)
   | "d" :: n :: rest, st => parseTree rest ((bytesOf n, []) :: st)
   | "u" :: rest, (dn, cs) :: st =>
     let t := Tree.dir dn cs.reverse
@@ -62,6 +82,7 @@ def strictSorted : List Name → Bool
 
 def step (st : St) (toks : List String) : St × String :=
   match toks with
+  | "env" :: _ => (st, "ok")
   | "tree" :: rn :: rest =>
     match parseTree ("d" :: rn :: rest) [] with
     | some t =>
